@@ -33,6 +33,10 @@ impl Args {
             extra: vec![],
         };
         let v: Vec<String> = std::env::args().skip(1).collect();
+        // `cargo miri run` has no build-only form: the driver warms the Miri lane up with this
+        if v.iter().any(|x| x == "--build-only") {
+            std::process::exit(0);
+        }
         let mut i = 0;
         while i < v.len() {
             let k = v[i].as_str();
